@@ -643,6 +643,19 @@ def coq_cases(sc, o):
 
 # ------------------------------------------------------------------------------------------------ the check
 
+def revive(sc):
+    """a scenario read back from a replay file: JSON turned the integer keys of the views into strings"""
+    def fix(x):
+        if isinstance(x, dict):
+            return {(int(k) if isinstance(k, str) and k.isdigit() else k): fix(v) for k, v in x.items()}
+        if isinstance(x, list):
+            return [fix(v) for v in x]
+        return x
+    for m in sc["meta"]:
+        m["views"] = fix(m["views"])
+    return sc
+
+
 def scenarios_for(rng, tier):
     n = lambda lo, hi: rng.randrange(lo, hi + 1)
     scs = []
@@ -654,11 +667,12 @@ def scenarios_for(rng, tier):
         scs.append(build_scenario(rng, "up4", 2, 6, "up4_b", pause=50))
         scs.append(build_scenario(rng, "bess", n(3, 5), 3, "bess_small_pool", pool="10.250.0.0/26", pause=0))
     else:
-        for i in range(8):
-            scs.append(build_scenario(rng, "bess", n(2, 8), n(3, 8), f"bess_{i}", pause=rng.choice([0, 100, 600, 2000])))
-        for i in range(4):
+        for i in range(40):
+            scs.append(build_scenario(rng, "bess", n(2, 8), n(3, 8), f"bess_{i}", pause=rng.choice([0, 100, 600, 2000]),
+                                      pool=rng.choice(["10.250.0.0/22", "10.250.0.0/25"])))
+        for i in range(20):
             scs.append(build_scenario(rng, "node", n(2, 8), n(3, 6), f"node_{i}", pause=rng.choice([0, 300, 1500])))
-        for i in range(6):
+        for i in range(30):
             scs.append(build_scenario(rng, "up4", n(2, 8), n(3, 8), f"up4_{i}", pause=rng.choice([0, 100, 600])))
     return scs
 
@@ -709,7 +723,7 @@ def run(tier, seed, replay=None):
     # ---- scenarios
     if replay:
         rp = json.load(open(replay))["case"]
-        scs = [rp["scenario"]] if "scenario" in rp else []
+        scs = [revive(rp["scenario"])] if "scenario" in rp else []
     else:
         scs = scenarios_for(rng, tier)
     try:
@@ -741,7 +755,7 @@ def run(tier, seed, replay=None):
         r["fails"] = seen_f22 + r["fails"]
         results[i] = r
     ths = [threading.Thread(target=job, args=(i,)) for i in range(len(scs))]
-    par = 6 if tier == "quick" else 4
+    par = 6
     for k in range(0, len(ths), par):
         for t in ths[k:k + par]:
             t.start()
@@ -773,7 +787,7 @@ def run(tier, seed, replay=None):
             ck.fail(sig, f"[{sc['tag']}] {msg}"[:6000], {"scenario": slim, "exit_status": res["rc"], "tries": res.get("tries")})
         ck.notes.setdefault("scenario_wall_s", {})[sc["tag"]] = res["wall"]
         if o and sc["world"] != "up4" and o.get("snaps") and len(o["snaps"]) == 3:
-            terms, ncmd = coq_cases(sc, o)
+            terms, ncmd = coq_cases(sc, o) if len(cases) < 60 else ([], 0)
             for t in terms:
                 cases.append(t)
                 kept.append((sc["tag"], ncmd // max(1, len(terms)), 0))
